@@ -471,7 +471,7 @@ def engUnary (s : St) (g : UnF) (tc ktypes : List String) (strict : Bool) (a : D
 
 /-- `StdEng.Map(fn, a, opts...)` (reached through `Dense.Apply`): the function is applied to the
     data of the *destination* (`used`), which is the reuse tensor whenever one is given. -/
-def engMap (s : St) (g : UnF) (mapTypes : List String) (a : Dense) (o : Opts) : Res EngOut := do
+def engMap (s : St) (g : UnF) (mapTypes : List String) (a : Dense) (o : Opts) (errForm : Bool := false) : Res EngOut := do
   let (s, fo) ← handleFuncOpts s a.shape a.dt a.ap.o.col true o
   -- create reuse in safe mode
   let (s, reuse, created) ← (match fo.reuse with
@@ -488,7 +488,10 @@ def engMap (s : St) (g : UnF) (mapTypes : List String) (a : Dense) (o : Opts) : 
   let used : Dense := if !fo.safe then a else reuse.getD a
   if !mapTypes.contains a.dt then throwErr "Cannot map fn" else
   if fo.incr && a.dt == "b" then throwErr "Cannot perform increment on bool" else
-  let gi : UnF := if fo.incr then (fun x => .app2 "add" x (g x)) else g
+  -- `MapIncr*`: `a[i] += fn(a[i])`; the kernels for the error-returning form, `MapIncrErr*` / `MapIterIncrErr*`,
+  -- assign instead: `a[i] = x`
+  -- (the one-element special case of `E.Map` adds in both forms)
+  let gi : UnF := if fo.incr && !(errForm && used.win.len != 1) then (fun x => .app2 "add" x (g x)) else g
   let s ← (if useIter then do kUnIter s used.win gi (← used.itStream s) else kUn s used.win gi)
   match reuse with
   | some r =>
